@@ -228,6 +228,73 @@ def jAckTakes (j : TakeSt) : List ORec → Option String
     | .error e => some e
     | .ok j' => jAckTakes j' rs
 
+/-! ### clause 4c — a requested redelivery is never lost: no message stuck in flight without a timer
+
+`schedule_redelivery(k)` (the visibility timeout of `k` has passed) on a message that *is* in flight — a delivery of `k`
+started and no acknowledge / reject / effective timeout of `k` followed — must do something unless a redelivery timer for
+`k` is still pending (a redelivery event was handed out for `k` and has not fired yet): hand out a redelivery event (the
+message is back in the pending queue) or, at the limit, dead-letter it.  A queue that answers "nothing to do" leaves the
+message in flight for ever: never redelivered, never dead-lettered.  And when a redelivery timer fires for a message the
+queue still owes while a consumer is subscribed, a delivery starts (otherwise — no consumer — the message stays pending
+and the next poll or timeout cycle picks it up; that it is not lost is clause 1).  All of this is read off the trace:
+in flight, timer pending, subscribed consumers, owed (clause 4b). -/
+
+structure RedSt where
+  tk : TakeSt := {}
+  subs : List Nat := []
+  infl : List Nat := []     -- ids with a started delivery and no ack / reject / effective timeout since
+  armed : List Nat := []    -- ids with a redelivery event handed out that has not fired yet
+deriving Repr
+
+/-- the embedded clause-4b bookkeeping (who is owed, the dead-letter count) after the record -/
+def RedSt.tkNext (j : RedSt) (r : ORec) : TakeSt :=
+  match j.tk.check r with
+  | .ok t => t
+  | .error _ => j.tk
+
+def subsAfter (subs : List Nat) : Act → List Nat
+  | .sub c => insertNew subs c
+  | .unsub c => subs.erase c
+  | _ => subs
+
+def armedAfterFire (armed : List Nat) : Act → List Nat
+  | .redeliv k => armed.filter (· != k)
+  | _ => armed
+
+/-- a delivery of `k` starts -/
+def RedSt.onDisp (j : RedSt) (r : ORec) (k : Nat) : RedSt :=
+  ⟨j.tkNext r, subsAfter j.subs r.act, k :: j.infl, armedAfterFire j.armed r.act⟩
+
+/-- did this `schedule_redelivery` do something: a redelivery event came back, or the dead-letter queue grew -/
+def RedSt.tmoEff (j : RedSt) (r : ORec) : Bool := r.out == .tmoEv || r.ctr.D == j.tk.D + 1
+
+/-- any other record -/
+def RedSt.onOther (j : RedSt) (r : ORec) : Except String RedSt :=
+  match r.act with
+  | .redeliv k =>
+    if j.tk.owes k && !j.subs.isEmpty then .error "mq/redelivery/timer-fired-consumer-subscribed-not-delivered"
+    else .ok ⟨j.tkNext r, subsAfter j.subs r.act, j.infl, j.armed.filter (· != k)⟩
+  | .tmo k =>
+    if j.infl.contains k && !j.armed.contains k && !j.tmoEff r then
+      .error "mq/redelivery/timeout-of-in-flight-message-refused"
+    else .ok ⟨j.tkNext r, subsAfter j.subs r.act, if j.tmoEff r then j.infl.filter (· != k) else j.infl,
+              if r.out == .tmoEv then k :: j.armed else j.armed⟩
+  | .ack k => .ok ⟨j.tkNext r, subsAfter j.subs r.act, j.infl.filter (· != k), j.armed⟩
+  | .rej k _ => .ok ⟨j.tkNext r, subsAfter j.subs r.act, j.infl.filter (· != k), j.armed⟩
+  | _ => .ok ⟨j.tkNext r, subsAfter j.subs r.act, j.infl, j.armed⟩
+
+def RedSt.check (j : RedSt) (r : ORec) : Except String RedSt :=
+  match r.out with
+  | .disp _ k _ _ => .ok (j.onDisp r k)
+  | _ => j.onOther r
+
+def jRedeliv (j : RedSt) : List ORec → Option String
+  | [] => none
+  | r :: rs =>
+    match j.check r with
+    | .error e => some e
+    | .ok j' => jRedeliv j' rs
+
 /-! ### clause 5 — every delivery reaches a subscribed consumer at the delivery instant
 
 A delivery that starts at `t0` (poll or redelivery event) picks a consumer subscribed at that
@@ -279,6 +346,6 @@ def jReach (lat : Nat) (j : ReachSt) : List ORec → Option String
 /-- all clauses; the first violated one is reported -/
 def judgeMQ (cfg : Cfg) (tr : List ORec) : Option String :=
   (jAccounted tr).or <| (jReach cfg.lat {} tr).or <| (jAckFinal {} tr).or <| (jAck {} tr).or <|
-    (jAckTakes {} tr).or <| (jLimit cfg.maxRe {} tr).or (jOrder {} tr)
+    (jAckTakes {} tr).or <| (jRedeliv {} tr).or <| (jLimit cfg.maxRe {} tr).or (jOrder {} tr)
 
 end HappyModel.C19
